@@ -102,7 +102,7 @@ def register_more(reg):
     c.param('test_rec', 'ref:TestRecord')
     c.requires('file_name_pattern_mode', 'self.filename_pattern is not None and self.filename_pattern')
     c.requires('dest', "ghost('dest') == self.create_file_name(test_rec)")
-    c.raises('Exception').raises('OSError')
+    c.raises('BaseException').raises('OSError')
     c.ensures('published_exactly_the_serialized_record',
               "ghost('dest') in ghost('fs') and ghost('fs')[ghost('dest')] == ghost('complete')")
     c.modifies("dict(ghost('fs'))", 'file.written', 'file.is_open', 'file.name', 'Atomic.filename', 'Atomic.temp')
@@ -126,6 +126,9 @@ def _serializer(variant):
         return [(s, v)]
       lst = ex_.make_input(s, 'chunks', 'list[str]')
       s.pyheap[(ex_.oid_of(lst), '$fail_at')] = VInt(z3.Int('fail_at'))
+      # the producer may be interrupted by anything, including exceptions outside the Exception hierarchy (thread kill =
+      # ThreadTerminationError(SystemExit), KeyboardInterrupt): a partially written record must not be published then either
+      s.pyheap[(ex_.oid_of(lst), '$fail_exc')] = 'BaseException'
       cu, _ = ex_.concat_upto_fn(s, ex_.list_items(s, lst))
       s.assume(s.ghost['complete'].t == cu(ex_.list_items(s, lst), ex_.list_len(s, lst)))
       return [(s, lst)]
